@@ -17,6 +17,8 @@ kind=secret  : `cfg=<hex|-> n=<conns> calls=<calls per conn>`
    observed  : `lens=<l>.<l>… stable=<0|1> distinct=<0|1> iscfg=<0|1>`
 kind=server  : `cfg=<hex|-> peers=<addr hex>;<addr hex> hellos=H;H;… steps=<step>,<step>,…`
                step = `<a|b>:<hello idx>:<cookie ref>:<p|o>:<fragments>[:<n>|<n>r]`  (n hellos in the one datagram: packed into one record | one record each)
+               or `<a|b>:w:<ms>` (the peer stays silent for that long)
+               optional case token `rto=<ms>` = InitialRetransmitTimeout (max = 2x), default: never
                cookie ref = `-` | `k<i>` (cookie of the i-th HelloVerifyRequest seen) | `x<i>.<pos>` | `r`
    observed  : `steps=<r>,<r>,… flight=<types>/<keyops>|-`
                r = `<datagrams>/<hs types|->/<sizes|->/<alerts>/<request bytes>/<keyops>` or `acc`
@@ -165,15 +167,21 @@ structure Step where
   frags : Nat
   pack : Nat := 1      -- complete ClientHello messages in the one datagram (frags = 1)
   oneRecord : Bool := true   -- … packed into one record / one record each
+  wait : Nat := 0      -- > 0: no datagram, the peer stays silent for this many milliseconds
 
 def parseStep (s : String) : Option Step :=
   match s.splitOn ":" with
+  | [c, "w", ms] => do
+    let conn ← if c == "a" then some 0 else if c == "b" then some 1 else none
+    let w ← ms.toNat?
+    if w == 0 then none else
+    pure { conn := conn, hello := 0, ref := "-", own := true, frags := 1, wait := w }
   | [c, h, r, f, k] => do
     let conn ← if c == "a" then some 0 else if c == "b" then some 1 else none
     let hi ← h.toNat?
     let kk ← k.toNat?
     if kk == 0 then none else
-    pure ⟨conn, hi, r, f == "p", kk, 1, true⟩
+    pure ⟨conn, hi, r, f == "p", kk, 1, true, 0⟩
   | [c, h, r, f, k, pk] => do
     let conn ← if c == "a" then some 0 else if c == "b" then some 1 else none
     let hi ← h.toNat?
@@ -181,7 +189,7 @@ def parseStep (s : String) : Option Step :=
     let perRec := pk.endsWith "r"
     let pp ← (if perRec then String.ofList (pk.toList.take (pk.length - 1)) else pk).toNat?
     if kk != 1 || pp == 0 then none else
-    pure ⟨conn, hi, r, f == "p", 1, pp, !perRec⟩
+    pure ⟨conn, hi, r, f == "p", 1, pp, !perRec, 0⟩
   | _ => none
 
 /-- an issued cookie: (secret symbol, MAC input, spec binding) -/
@@ -235,7 +243,19 @@ def judgeServer (ct ot : List String) : Option Verdict := do
     match steps with
     | [] => some (outs.reverse, fail, done)
     | st :: rest => do
-      if done then none  -- generator contract: an accepting step is the last one
+      -- generator contract: a step a correct server accepts is the last one; if the model of a
+      -- changed tree accepts earlier, what follows is not predicted
+      if done then go rest obs.tail issued true started dead ("?" :: outs) fail else
+      if st.wait > 0 then
+        -- silence: `readNextClientHello` only lengthens its timeout on a read timeout (no call on
+        -- that branch — regenerated fact), so nothing is sent however long the peer stays silent
+        let m := if Facts.dtlcp.cookieWaitTimeoutCalls.isEmpty then "0/-/-/0/0/0" else "?"
+        let f := match fail, parseReaction (obs.headD "") with
+          | some x, _ => some x
+          | none, some r => Spec.Cookie.judgeSilence r
+          | none, none => some ("shape", "unparseable reaction")
+        go rest obs.tail issued false started dead (m :: outs) f
+      else
       let h ← hellos[st.hello]?
       let peer ← peers[st.conn]?
       let body := encodeBody h []
